@@ -7,7 +7,7 @@ of integer variables and constraints to boolean satisfiability clauses.
 Not part of the public API - use Model from cp.py instead.
 """
 
-from itertools import combinations
+from itertools import combinations, product
 from typing import TYPE_CHECKING, Any
 
 from solvor.sat import Status as SATStatus
@@ -140,13 +140,13 @@ class SATEncoder:
 
         Handles linear expressions like (x + c1) != (y + c2).
         """
-        from solvor.cp import IntVar
+        from solvor.cp import IntVar, _is_plain_sum
 
         # Handle subtraction: (x - y) ?= c => x ?= y + c
-        if isinstance(left, tuple) and left[0] == "sub":
+        if isinstance(left, tuple) and left[0] == "sub" and isinstance(right, int):
             x, y = left[1], left[2]
             if isinstance(x, IntVar) and isinstance(y, IntVar):
-                right_const = right if isinstance(right, int) else 0
+                right_const = right
                 if is_ne:
                     for v1 in x.bool_vars:
                         v2 = v1 - right_const
@@ -161,6 +161,10 @@ class SATEncoder:
                         else:
                             self._clauses.append([-x.bool_vars[v1]])
                 return
+
+        if not (_is_plain_sum(left) and _is_plain_sum(right)):
+            self._encode_ne_expr_by_enumeration(left, right, is_ne)
+            return
 
         left_terms, left_const = self._flatten_sum(left)
         right_terms, right_const = self._flatten_sum(right)
@@ -216,6 +220,24 @@ class SATEncoder:
                         self._clauses.append([var1.bool_vars[v1], -var2.bool_vars[v2]])
                     else:
                         self._clauses.append([-var1.bool_vars[v1]])
+            return
+
+        self._encode_ne_expr_by_enumeration(left, right, is_ne)
+
+    def _encode_ne_expr_by_enumeration(self, left: Any, right: Any, is_ne: bool) -> None:
+        """General linear shape: forbid every value combination that breaks the relation."""
+        from solvor.cp import _eval_expr, _expr_vars
+
+        variables = _expr_vars(right, _expr_vars(left, []))
+        if not variables:
+            if (_eval_expr(left, {}) == _eval_expr(right, {})) == is_ne:
+                self._clauses.append([])
+            return
+
+        for combo in product(*(range(v.lb, v.ub + 1) for v in variables)):
+            values = {v.name: val for v, val in zip(variables, combo)}
+            if (_eval_expr(left, values) == _eval_expr(right, values)) == is_ne:
+                self._clauses.append([-v.bool_vars[val] for v, val in zip(variables, combo)])
 
     # Sum constraints
 
